@@ -45,7 +45,7 @@ def r1_cell_api(ctx):
             inside = f.key.startswith("mahf::state::registry::") or f.key.startswith("<mahf::state::registry::")
             ctx.check(inside and nm in ("new", "try_borrow", "try_borrow_mut", "borrow", "borrow_mut", "get_mut", "into_inner"), "C02.R1", f.key, nm,
                       "state cell operation %s used %s" % (nm, "outside the registry module" if not inside else "(not a checked RefCell operation)"), loc=f.loc(t.get("line")))
-    ctx.floor("C02.R1", "operations on state cells", n, 10)
+    ctx.floor("C02.R1", "operations on state cells", n, 6)
     # transmutes / raw pointer casts in the state module
     for f in F.all_fns:
         if not f.file.startswith("src/state/"):
